@@ -155,6 +155,9 @@ class Func:
 
 
 class ClassRef:
+    def __deepcopy__(self, memo):
+        return self
+
     def __init__(self, module, qual):
         self.module, self.qual = module, qual
 
@@ -167,6 +170,9 @@ class ClassRef:
 
 
 class ModRef:
+    def __deepcopy__(self, memo):
+        return self
+
     def __init__(self, name):
         self.name = name
 
@@ -176,6 +182,9 @@ class ModRef:
 
 class Ext:
     """A name the analysis has no source for (sympy, itertools, ...)."""
+
+    def __deepcopy__(self, memo):
+        return self
 
     def __init__(self, name):
         self.name = name
@@ -290,6 +299,12 @@ class Symex:
         # another record, None or a plain value are decided by identity instead of becoming symbolic atoms
         self.obj_identity = obj_identity
         self._modconst = {}
+        # Module-level *mutable* values (dict/list/set/record bound by a module-level assignment, e.g. a cache) are part of
+        # the evaluated state: ``module_state`` holds the instances of the current path, ``_modinit`` their pristine
+        # initial values.  Every path starts from the freshly imported module (``module_state`` is emptied in
+        # ``_explore``); within one path - e.g. the calls of ``run_sequence`` - writes of an earlier call are seen later.
+        self.module_state = {}
+        self._modinit = {}
         self.fresh_n = 0
         self.on_start = None
 
@@ -304,6 +319,23 @@ class Symex:
             args = make_args()
             f = Func(fn, [], mod, getattr(fn, "_qual", None))
             return self._invoke(f, [], args, fn, top=True)
+        return self._explore(body)
+
+    def run_sequence(self, refs, make_args_list):
+        """Call history: the functions ``refs`` are evaluated one after another on every path, on the argument dicts
+        built by ``make_args_list()`` (fresh per path); module-level state written by an earlier call is seen by the
+        later ones.  ``Outcome.value`` is the list of per-call results ``("return", value)`` / ``("raise", name)``."""
+        fns = [self.model.fn(r) if isinstance(r, str) else r for r in refs]
+
+        def body():
+            res = []
+            for fn, args in zip(fns, make_args_list()):
+                f = Func(fn, [], fn._module, getattr(fn, "_qual", None))
+                try:
+                    res.append(("return", self._invoke(f, [], args, fn, top=True)))
+                except Raised as e:
+                    res.append(("raise", e.name))
+            return res
         return self._explore(body)
 
     def run_block(self, fn, stmts, make_env):
@@ -336,6 +368,7 @@ class Symex:
             self.steps, self.depth = 0, 0
             self.frames, self.module = [], None
             self.fresh_n = 0
+            self.module_state = {}
             if self.on_start is not None:
                 self.on_start(self)
             try:
@@ -781,6 +814,12 @@ class Symex:
             key = (mod.name, name)
             if key in self._modconst:
                 return self._modconst[key]
+            if key in self.module_state:
+                return self.module_state[key]
+            if key in self._modinit:
+                import copy
+                self.module_state[key] = copy.deepcopy(self._modinit[key])
+                return self.module_state[key]
             for st in mod.tree.body:
                 if isinstance(st, ast.Assign) and any(isinstance(t, ast.Name) and t.id == name for t in st.targets) \
                         or isinstance(st, ast.AnnAssign) and isinstance(st.target, ast.Name) and st.target.id == name \
@@ -791,6 +830,11 @@ class Symex:
                         v = self.ev(st.value)
                     finally:
                         self.frames, self.module = saved
+                    if isinstance(v, (dict, list, set, Obj)):
+                        import copy
+                        self._modinit[key] = v                  # pristine, never handed out
+                        self.module_state[key] = copy.deepcopy(v)
+                        return self.module_state[key]
                     self._modconst[key] = v
                     return v
             if name in mod.imports:
